@@ -6,6 +6,7 @@ package keyvalue
 
 import (
 	"fmt"
+	"strings"
 
 	"github.com/janelia-flyem/dvid/datastore"
 	"github.com/janelia-flyem/dvid/storage"
@@ -34,8 +35,13 @@ func (d *Data) DescribeTKeyClass(tkc storage.TKeyClass) string {
 	return "unknown keyvalue key"
 }
 
-// NewTKey returns the "key" key component.
+// NewTKey returns the "key" key component.  The key is stored with a terminating zero byte,
+// so it cannot hold one itself: "a" + terminator would be a prefix of "a\x00b" + terminator
+// and scans over the versions of key "a" would meet the entries of key "a\x00b".
 func NewTKey(key string) (storage.TKey, error) {
+	if strings.IndexByte(key, 0) >= 0 {
+		return nil, fmt.Errorf("keyvalue key %q holds a zero byte, which is not permitted", key)
+	}
 	return storage.NewTKey(keyStandard, append([]byte(key), 0)), nil
 }
 
